@@ -18,6 +18,10 @@ def plan(tier):
     p.append((S.T3(lazy=True, O=S.PF).variant("/lazy"), 1, 2))
     # result never reported
     p.append((S.T1(O=("PASS", "NORESULT"), D=(1.0,)).variant("/noresult"), 1 if q else 2, 1))
+    p.append((S.T1("net1", shared=S.VM1_CHAIN, O=("PASS", "NORESULT"), D=(1.0,)).variant("/leaf-only,noresult"), 1, 0.5))
+    p.append((S.T1("net1", shared=S.VM1_CHAIN, persistent=(r"tutorial1", "NORESULT"), D=(1.0,)).variant("/leaf-only,result never reported"), 0, 0.5))
+    p.append((S.T2("net1 net2", shared=S.VM1_CHAIN[:2], persistent=(r"on_customize", "NORESULT"), D=(1.0,)).variant("/setup result never reported"), 0, 0.5))
+    p.append((S.T1("net1 net2", shared=S.VM1_CHAIN, params={"max_tries": 2}, O=("PASS", "NORESULT"), D=(1.0,)).variant("/leaf-only,noresult,mt=2"), 1, 0.5))
     # retries
     for mt in (2, 3):
         p.append((S.T2(params={"max_tries": mt}, O=S.PF).variant(f"/max_tries={mt}"), 1 if q else 2, 2))
@@ -25,7 +29,7 @@ def plan(tier):
     # persistent failure of one test or of the creation step
     for pat, tag in ((r"\.customize\.", "customize"), (r"\.on_customize\.", "on_customize"), (r"unattended_install", "install"),
                      (r"stateless\.noop", "creation-pre-step"), (r"tutorial1", "tutorial1")):
-        for mt in ((1,) if q else (1, 2)):
+        for mt in ((1, 2) if (not q or tag in ("creation-pre-step", "install", "customize")) else (1,)):
             for st in ("FAIL", "ERROR"):
                 if q and st == "ERROR" and tag not in ("install",):
                     continue
